@@ -1,4 +1,4 @@
 From Coq Require Import Extraction ExtrOcamlBasic.
 From PV Require Import Lib.ExtBase C20.Model C20.ModelScan.
 Extraction "model.ml" ext_base_z ext_base_n ext_base_nat ext_base_res ext_base_list
-  EqualObjects enoughFuel simb strip substo substg contentStreamDup consolidateCloned formDedupCounts used_names.
+  EqualObjects enoughFuel simb strip substo substg contentStreamDup consolidateCloned formDedupCounts used_names removeEmpty.
